@@ -150,9 +150,16 @@ def serialise(run):
 
 
 def design_level(run, thorough, base):
+    """M: exhaustive TLC runs of the design; the negative controls (small models) run four at a time"""
     run.tlc_mc("Node", "Node_mc.cfg", dict(base, MaxChildren="4" if thorough else "3", StatOnlyEmpty="FALSE" if thorough else "TRUE"),
                workers=8 if thorough else 4, timeout=3000, name="Node_mc.cfg children<=%d" % (4 if thorough else 3))
+    oc2 = {"MaxLayers": "2", "LmChoices": '{"none", ".prefetch.landmark", ".no.prefetch.landmark"}', "PfChoices": "{TRUE, FALSE}",
+           "SubLmChoices": "{TRUE, FALSE}"} if thorough else {"MaxLayers": "2"}
+    run.tlc_mc("OverlayCheck", "OverlayCheck_mc.cfg", oc2, workers=8 if thorough else 4, timeout=3000, name="OverlayCheck_mc.cfg all pairs")
+    oc3 = {"MaxLayers": "3"} if thorough else {"MaxLayers": "3", "TopAChoices": "{FALSE}"}
+    run.tlc_mc("OverlayCheck", "OverlayCheck_mc.cfg", oc3, workers=12 if thorough else 4, timeout=3000, name="OverlayCheck_mc.cfg triples")
     small = {"MaxChildren": "2"}
+    ctl = []
     for ovr, exp in (({"RealWins": "FALSE"}, ["ListingIsTranslation"]),
                      ({"LandmarkHiding": '"all"'}, ["ListingIsTranslation"]),
                      ({"LandmarkHiding": '"none"'}, ["ListingIsTranslation"]),
@@ -162,17 +169,35 @@ def design_level(run, thorough, base):
                      ({"WhiteoutAttr": "FALSE"}, ["ListedIffLookup", "ListedIffLookupA", "InodesUniqueStable", "InodesUniqueStableA"]),
                      ({"MemWhiteoutAttr": "FALSE"}, ["ListedIffLookup", "ListedIffLookupA"]),
                      ({"WriterDropsToc": "FALSE"}, ["ListingIsTranslation"])):
-        run.tlc_negctl("Node", "Node_mc.cfg", dict(small, **ovr), exp, drop=INTERNAL)
-
-    oc2 = {"MaxLayers": "2", "LmChoices": '{"none", ".prefetch.landmark", ".no.prefetch.landmark"}', "PfChoices": "{TRUE, FALSE}",
-           "SubLmChoices": "{TRUE, FALSE}"} if thorough else {"MaxLayers": "2"}
-    run.tlc_mc("OverlayCheck", "OverlayCheck_mc.cfg", oc2, workers=8 if thorough else 4, timeout=3000, name="OverlayCheck_mc.cfg all pairs")
-    oc3 = {"MaxLayers": "3"} if thorough else {"MaxLayers": "3", "TopAChoices": "{FALSE}"}
-    run.tlc_mc("OverlayCheck", "OverlayCheck_mc.cfg", oc3, workers=12 if thorough else 4, timeout=3000, name="OverlayCheck_mc.cfg triples")
+        ctl.append(lambda ovr=ovr, exp=exp: run.tlc_negctl("Node", "Node_mc.cfg", dict(small, **ovr), exp, drop=INTERNAL, workers=2))
     for ovr in ({"RealWins": "FALSE"}, {"OpaqueOn": "FALSE"}, {"MountKeyMatches": "FALSE", "Modes": '{"trusted", "user"}'}):
-        run.tlc_negctl("OverlayCheck", "OverlayCheck_mc.cfg", dict({"MaxLayers": "2", "TopAChoices": "{FALSE}"}, **ovr), ["MergeEqualsApply"],
-                       drop=("SingleLayerSane",))
+        ctl.append(lambda ovr=ovr: run.tlc_negctl("OverlayCheck", "OverlayCheck_mc.cfg", dict({"MaxLayers": "2", "TopAChoices": "{FALSE}"}, **ovr),
+                                                  ["MergeEqualsApply"], drop=("SingleLayerSane",), workers=2))
+    with concurrent.futures.ThreadPoolExecutor(max_workers=4) as ex:
+        for f in [ex.submit(c) for c in ctl]:
+            f.result()
 
+
+def all_sequences(inits, edges, init_pred, edge_pred, depth):
+    """every path of 1..depth selected edges from the selected initial states (same walk format as edge_cover)"""
+    out = collections.defaultdict(list)
+    for e in edges:
+        if edge_pred(e["last"]):
+            out[canon(e["from"])].append(e)
+    res = []
+
+    def rec(node, path):
+        if path:
+            res.append([dict(e["last"], post=e["to"]) for e in path])
+        if len(path) < depth:
+            for e in out.get(canon(node), ()):
+                rec(e["to"], path + [e])
+    for i in inits:
+        if init_pred(i):
+            rec(i, [])
+    # a prefix of a replayed walk is replayed anyway: keep the paths that cannot be extended
+    keep = [w for w in res if len(w) == depth or not out.get(canon(w[-1]["post"]))]
+    return keep
 
 
 def prepare_nodes(run, thorough, base):
@@ -180,6 +205,15 @@ def prepare_nodes(run, thorough, base):
     gen = dict(base, MaxChildren="3" if thorough else "2", ExtraContents="{}" if thorough else EXTRA3)
     inits, edges = run.tlc_edges("NodeGen", "Node_gen.cfg", gen, timeout=1500)
     walks, st = edge_cover(inits, edges, maxlen=24, rng=run.rng, extra_walks=300 if thorough else 40)
+    # ... plus EVERY sequence of <= 4 state-file calls (and listings) on the empty root, and every sequence of <= 3 calls
+    # out of Readdir / Lookup / Forget of the served names on two small directories (call orders, not just edges)
+    seqs = all_sequences(inits, edges, lambda i: i["isRoot"] and not i["src"],
+                         lambda l: l["act"] in ("Progress", "Report", "StatRead", "Readdir"), 4)
+    for content in (["a", ".wh.a"], [".wh.a", ".wh..wh.foo"]):
+        seqs += all_sequences(inits, edges, lambda i: not i["isRoot"] and sorted(i["src"]) == sorted(content),
+                              lambda l: l["act"] in ("Readdir", "Forget") or (l["act"] == "Lookup" and l["n"] in ("a", ".wh.foo", "zz")), 3)
+    walks += seqs
+    st["sequences"] = len(seqs)
     log("[walks] node: %s" % st)
     run.cov["stages"].append(dict(stage="edge-cover", graph="node", **st))
     run.cov["exhaustive"] = st["covered"] == st["edges"]
